@@ -17,6 +17,7 @@ structure Streaminfo where
   bps : Nat               -- 1..32 (stored minus one)
   total : Nat             -- 0 = unknown
   md5 : List Nat          -- 16 bytes
+  md5Some : Bool := !(md5.all (· == 0))   -- `Option<[u8; 16]>` is `Some` (the reader yields `None` exactly for 16 zero bytes)
 deriving Repr, DecidableEq, Inhabited
 
 inductive SeekPt
@@ -46,15 +47,17 @@ def readRawBlocks : Nat → List Nat → Nat → Res (List RawBlock × Nat)
         | .ok (bl, u) => .ok ({ last := false, type := h % 128, body := rest.take (beNat [a, b, c]) } :: bl, u)
     | _ => .error .eof
 
+/-- the 18 leading bytes of STREAMINFO as one big-endian number:
+    16+16+24+24+20+3+5+36 = 144 bits -/
 def parseStreaminfo (b : List Nat) : Option Streaminfo :=
   if b.length != 34 then none else
-  let bits := bytesToBits (b.take 18)
-  some { minBlock := beNat (b.take 2), maxBlock := beNat ((b.drop 2).take 2),
-         minFrame := beNat ((b.drop 4).take 3), maxFrame := beNat ((b.drop 7).take 3),
-         rate := bitsToNat ((bits.drop 80).take 20),
-         channels := bitsToNat ((bits.drop 100).take 3) + 1,
-         bps := bitsToNat ((bits.drop 103).take 5) + 1,
-         total := bitsToNat ((bits.drop 108).take 36),
+  let v := beNat (b.take 18)
+  some { minBlock := v / 2 ^ 128, maxBlock := v / 2 ^ 112 % 2 ^ 16,
+         minFrame := v / 2 ^ 88 % 2 ^ 24, maxFrame := v / 2 ^ 64 % 2 ^ 24,
+         rate := v / 2 ^ 44 % 2 ^ 20,
+         channels := v / 2 ^ 41 % 2 ^ 3 + 1,
+         bps := v / 2 ^ 36 % 2 ^ 5 + 1,
+         total := v % 2 ^ 36,
          md5 := b.drop 18 }
 
 def parseSeekPoints : Nat → List Nat → List SeekPt
